@@ -1,6 +1,8 @@
 package core
 
 import (
+	"strings"
+
 	"github.com/jsightapi/jsight-schema-core/fs"
 )
 
@@ -11,12 +13,15 @@ func HScanProject() {
 	data := append([]byte(vPrefixes[vParam("pre", 0)]), vBytes("d", n)...)
 	vDir(vPath("/vfs/p"))
 	vFile(vPath("/vfs/p/a"), []byte("GET /a\n 200 any\n"))
+	vFile(vPath("/vfs/p/e"), []byte{})
 	vDir(vPath("/vfs/p/d"))
 	f := fs.NewFile(vPath("/vfs/p/root.jst"), data)
 	c := NewJApiCore(f)
 	je := c.scanProject()
 	if je != nil {
 		vAssert(je.File != nil, "error-without-file")
+		vAssert(int(je.Index) <= je.File.Content().Len(), "error-index-outside-file")
+		vAssert(strings.HasPrefix(je.File.Name(), vPath("/vfs/p/")), "error-file-not-in-project")
 		vObserve("err", int(je.Index), je.Msg)
 		return
 	}
@@ -31,12 +36,15 @@ func HBuild() {
 	data := append([]byte(vPrefixes[vParam("pre", 0)]), vBytes("d", n)...)
 	vDir(vPath("/vfs/p"))
 	vFile(vPath("/vfs/p/a"), []byte("GET /a\n 200 any\n"))
+	vFile(vPath("/vfs/p/e"), []byte{})
 	vDir(vPath("/vfs/p/d"))
 	f := fs.NewFile(vPath("/vfs/p/root.jst"), data)
 	c := NewJApiCore(f)
 	je := c.BuildCatalog()
 	if je != nil {
 		vAssert(je.File != nil, "error-without-file")
+		vAssert(int(je.Index) <= je.File.Content().Len(), "error-index-outside-file")
+		vAssert(strings.HasPrefix(je.File.Name(), vPath("/vfs/p/")), "error-file-not-in-project")
 		vObserve("err", int(je.Index), je.Msg)
 		return
 	}
